@@ -1,7 +1,7 @@
 """C12 - names are unique per space and the visible namespace equals the containers."""
 from .base import PropBase, Violation
 from .. import history, refmodel as rm
-from ..world import objpath
+from ..world import objpath, library_self_check
 from . import c02
 import modelx as mx
 
@@ -27,11 +27,10 @@ class NamesOracle(history.Oracle):
         self.ctx.count("states_checked", 1, "reach")
         m = self.mach.world.m
         self.check_model(m, op)
-        try:
-            mx.core.mxsys._check_sanity()
-        except AssertionError as e:
+        e = library_self_check()
+        if isinstance(e, AssertionError):
             raise Violation("C12/sanity-check-failed/" + op["op"], {"op": strip(op), "outcome": out, "error": repr(e)[:300]})
-        except Exception as e:
+        elif e is not None:
             raise Violation("C12/sanity-check-raised/%s/%s" % (op["op"], type(e).__name__), {"op": strip(op), "error": repr(e)[:300]})
 
     def check_model(self, m, op):
